@@ -9,7 +9,7 @@ component's type and L(S) its compiled language at byte level:
                             overlong sequences are never equated with text)
 plus a panic-site discharge over the instance graph: every panic entry reachable from the components'
 eq/cmp/hash lies in a function whose precondition is one of those lemmas."""
-from .. import facts, mir, sites, pct, utf8
+from .. import facts, mir, sites, pct, utf8, terms
 from ..aut import included, intersect
 from ..igraph import IGraph
 
@@ -58,6 +58,25 @@ def main(run):
     run.floor('pct_sites', 17, 'PctStr/PctString::new_unchecked sites')
     if len(types) < PCT_TYPES_FLOOR:
         run.violation('floor|pct_types', f'only {len(types)} component types have a percent-decoded view (10 expected)')
+    # the view is the view of the value's OWN text: every function of one argument that yields a PctStr / PctString yields, on every path, the
+    # wrapped text of that argument (directly or through another such function) — a view that falls back to some other text on a path
+    # (the empty segment's view for a text the checked constructor refuses) is not the decoding of the component
+    import re
+    views = {f['path'] for f in F['fns'] if f['has_body'] and len(f['inputs']) == 1 and re.search(r'pct_str::Pct(Str|String)($|[ >,)])', f['output'])}
+    for fn in sorted(views):
+        b = P.body(fn)
+        if b is None:
+            continue
+        run.count('own_text_views')
+        t = ctx.I.expand(ctx.I.terms(fn).ret())
+        r = ctx.text_root(t)
+        for _ in range(4):
+            if r is not None and r[0] == 'call' and r[1] in views and len(r[2]) == 1:
+                r = ctx.text_root(r[2][0])
+        if not (r is not None and r[0] == 'arg' and r[1] == 1):
+            run.violation(f'view|{fn}', f'{P.where(b)} {fn}: what it returns is not, on every path, the percent-decoded view of the text of the value it is called on '
+                          f'(returns {terms.show(t)[:160] if hasattr(terms, "show") else str(t)[:160]})')
+    run.floor('own_text_views', 18, 'functions yielding a percent-decoded view of a component')
     res = lemmas(run, ctx, types, 'C19')
     why = {'TRIPLETS': 'iterating its octets panics (Bytes::next unwraps a missing/invalid hex digit)',
            'TOTAL': 'chars()/len()/decode()/==/cmp/hash panic: the decoded octets are not accepted by the UTF-8 decoder (Chars::next unwraps an Err)',
